@@ -6,6 +6,7 @@ import (
 	"encoding/hex"
 	"errors"
 	"fmt"
+	"github.com/parquet-go/parquet-go"
 	"io"
 	"os"
 	"strconv"
@@ -87,6 +88,16 @@ func c17Produce(w wWriter, ops []wOp, seed uint64) error {
 			}
 			next += op.N
 			_, err = w.write(rows)
+		case "wrg": // the rows arrive as a sorted in-memory row group
+			b := parquet.NewGenericBuffer[wRow](parquet.SortingRowGroupConfig(parquet.SortingColumns(parquet.Ascending("id"))))
+			rows := make([]wRow, op.N)
+			for i := range rows {
+				rows[i] = wRowOf(next+i, seed)
+			}
+			next += op.N
+			if _, err = b.Write(rows); err == nil {
+				_, err = w.writeRowGroup(b)
+			}
 		case "colflush":
 			for i, cw := range w.columnWriters() {
 				if (op.C == 1 && i == 0) || (op.C != 1 && i%2 == 1) {
